@@ -54,6 +54,7 @@ type FuncContract struct {
 	Trusted   bool
 	Inline    bool
 	GhostSets []GhostSet      // ghost assignments performed on entry (specification state updated by this function)
+	OwnWrites []string        // heap key prefixes: stores into these keys must target objects allocated by this activation
 	Calls     []string        // parameters holding functions the callee may invoke: their write sets are added at call sites
 	Reveal    map[string]bool // opaque spec functions unfolded while verifying this function
 	NoPanic   bool            // claim: no reachable panic instruction / bounds failure
@@ -123,7 +124,7 @@ func newContractSet() *ContractSet {
 	return &ContractSet{Funcs: map[string]*FuncContract{}, Specs: map[string]*SpecFunc{}, Axioms: map[string]*Axiom{}, Ghosts: map[string]*GhostVar{}}
 }
 
-var keywordRe = regexp.MustCompile(`^(func|property|requires|ensures|modifies|loop|assert|trusted|inline|nopanic|safety|spec|axiom|lemma|invariant|ghostset|ghost|use|reveal|calls|package)\b`)
+var keywordRe = regexp.MustCompile(`^(func|property|requires|ensures|modifies|loop|assert|trusted|inline|nopanic|safety|spec|axiom|lemma|invariant|ghostset|ghost|use|reveal|calls|ownwrites|package)\b`)
 var labelRe = regexp.MustCompile(`^\[([A-Za-z0-9_.<>=%+\-]+)\]\s*(.*)$`)
 
 func canonFuncName(pkg, decl string) string {
@@ -325,6 +326,11 @@ func (cs *ContractSet) parseFile(path string, defaultPkg string) error {
 				return fmt.Errorf("%s:%d: %v", path, it.line, err)
 			}
 			cur.GhostSets = append(cur.GhostSets, GhostSet{Var: strings.TrimSpace(it.text[:i]), E: e, Text: it.text})
+		case "ownwrites":
+			if cur == nil {
+				return fmt.Errorf("%s:%d: ownwrites outside func", path, it.line)
+			}
+			cur.OwnWrites = append(cur.OwnWrites, strings.Fields(it.text)...)
 		case "calls":
 			if cur == nil {
 				return fmt.Errorf("%s:%d: calls outside func", path, it.line)
